@@ -42,3 +42,15 @@ claim("C17", "exploration",
       "Every reachable observable state of the real AliasRelation over 4 names x 2 signs is visited (breadth-first, the state fix-point is reached and reported) and every operation is applied in every state; after each operation aliases(), canonical_signed(), canonical_variables and iteration are compared with a shadow signed union-find, copies are checked for independence in both directions, and icontract postconditions on add/remove/copy check symmetry and the negation mirror. Random histories of length 60 over 8 names extend beyond the bound.",
       "exhaustive only inside the 4-name universe (fix-point of observable fingerprints); histories relating a variable to its own negation are excluded by the property's precondition",
       "DESIGN.md section 4, C17")
+
+claim("C05", "exploration",
+      "history monitor on one parsed tree with the fresh-parse result as executable model (flatten / casadi / sympy / xml / CLI requests)",
+      "Sequences of flatten and backend-generate requests are executed on one parsed tree (every class of every test model in all ordered pairs, generated libraries, random longer sequences in thorough) and each step's canonical result or exception type is compared with the same request on a fresh parse; the compiler CLI is called with several -m and compared with the models alone. An icontract snapshot/postcondition on tree.flatten counts calls that mutate their input (diagnostic only).",
+      "results are compared through a canonical projection (no parent links, no import memo); CasADi results by variable lists and printed equations",
+      "DESIGN.md section 4, C05")
+
+claim("C07", "exploration",
+      "reference-model monitor on tree.flatten: independent reference instantiation (vf.mlib) vs the real flat class",
+      "Generated libraries (hierarchies to depth 4, repeated instances, extends chains and multiple extends, nested class definitions, extends from an enclosing scope, type aliases, arrays of scalars, prefixes) - every class is flattened by the real code and by an independent reference; variable names, elementary types, prefixes, dimensions and the multiset of (initial) equations by value at random points are compared. Two scoping extensions are generated separately and are known findings.",
+      "trusts the reference instantiation in vf/mlib.py; equations compared as value multisets at 4 points",
+      "DESIGN.md section 4, C07")
